@@ -32,13 +32,13 @@ var externModels = map[string]externFn{
 		return f64v(mk("fp.abs", F64Sort, a[0].one()))
 	},
 	"math.Floor": func(ex *Exec, st *State, fn *ssa.Function, a []Value) Value {
-		return f64v(TS.intern(&Term{Op: "fp.rti", Name: "RTN", Args: []*Term{a[0].one()}, Sort: F64Sort}))
+		return f64v(F64Round("floor", a[0].one()))
 	},
 	"math.Ceil": func(ex *Exec, st *State, fn *ssa.Function, a []Value) Value {
-		return f64v(TS.intern(&Term{Op: "fp.rti", Name: "RTP", Args: []*Term{a[0].one()}, Sort: F64Sort}))
+		return f64v(F64Round("ceil", a[0].one()))
 	},
 	"math.Trunc": func(ex *Exec, st *State, fn *ssa.Function, a []Value) Value {
-		return f64v(TS.intern(&Term{Op: "fp.rti", Name: "RTZ", Args: []*Term{a[0].one()}, Sort: F64Sort}))
+		return f64v(F64Round("trunc", a[0].one()))
 	},
 	"math.NaN": func(ex *Exec, st *State, fn *ssa.Function, a []Value) Value { return f64v(fpNaN) },
 	"math.Inf": func(ex *Exec, st *State, fn *ssa.Function, a []Value) Value {
